@@ -1,5 +1,6 @@
 import Moyo.Proofs.Identify
 import Moyo.Proofs.IdentifySolve
+import Mathlib.Tactic.LinearCombination
 /-
 Stage S5: from the origin-shift system to the affine conjugation.
 `match_origin_shift` solves `(R_db − I) s = t_db − P⁻¹ t (mod 1)` and returns `p = (P s) % 1`.
